@@ -188,13 +188,15 @@ def run_cell(res, oname, slow, method, con, situation):
         obs = [(6, b"")] if situation.startswith("obs-") else []    # a registration attempt at an observable resource
         nr = int(situation[2:]) if situation.startswith("nr") else None
         nropt = [(258, rc.uint(nr))] if nr is not None else []
-        w.inject(P1, SRV, rc.encode((rc.CON if con else rc.NON, method, 0x3001, tok, obs + [(11, p) for p in paths] + nropt, b"")))
+        mid = 0 if situation == "mid0" else 0x3001       # (mid0: the known path, under the one message ID that is falsy)
+        midb = bytes([mid >> 8, mid & 0xFF])
+        w.inject(P1, SRV, rc.encode((rc.CON if con else rc.NON, method, mid, tok, obs + [(11, p) for p in paths] + nropt, b"")))
         serve(w, 3.0)
         case = {"outcome": oname, "slow": slow, "method": method, "con": con, "situation": situation}
         res.evaluations += 1
         res.traces += 1
         fin = finals(w, P1, tok)
-        if situation in ("known", "obs-declined", "obs-accepted") or nr is not None:
+        if situation in ("known", "mid0", "obs-declined", "obs-accepted") or nr is not None:
             if exp == "default":
                 want = (default_code(method), b"")
             elif exp == "bare500":
@@ -212,15 +214,15 @@ def run_cell(res, oname, slow, method, con, situation):
         if nr is not None and nr & (1 << ((want[0] >> 5) - 1)):
             # RFC 7967: the response class is not wanted - nothing carrying the token is sent (a CON still gets its empty ACK)
             ok = not fin
-            acks = [d for d in w.sent if d.src == SRV and d.dst == P1 and d.data[0] & 0x30 == 0x20 and d.data[2:4] == b"\x30\x01"]
+            acks = [d for d in w.sent if d.src == SRV and d.dst == P1 and d.data[0] & 0x30 == 0x20 and d.data[2:4] == midb]
             if con and len(acks) != 1:
                 ok = False
         if oname.startswith("ret-msg-") and nr is not None and nr & 2:
             # the handler's (unserialisable) 2.xx is not wanted in the first place: never serialising it and staying silent is as good
             # as noticing the mistake and suppressing or sending the 5.00
-            acks = [d for d in w.sent if d.src == SRV and d.dst == P1 and d.data[0] & 0x30 == 0x20 and d.data[2:4] == b"\x30\x01"]
+            acks = [d for d in w.sent if d.src == SRV and d.dst == P1 and d.data[0] & 0x30 == 0x20 and d.data[2:4] == midb]
             ok = ok or (not fin and (not con or len(acks) == 1))
-        if ok and exp == "bare500" and situation in ("known", "obs-declined", "obs-accepted") and fin[0][4]:
+        if ok and exp == "bare500" and situation in ("known", "mid0", "obs-declined", "obs-accepted") and fin[0][4]:
             ok = False
         if not ok:
             res.violate(Violation("final-response", {"count": 1, "code": rc.code_str(want[0]), "payload": want[1]},
@@ -230,6 +232,9 @@ def run_cell(res, oname, slow, method, con, situation):
         acks = [d for d in w.sent if d.src == SRV and (d.data[0] >> 4) & 3 == rc.ACK]
         if con and len({d.data for d in acks}) != 1:
             res.violate(Violation("ack-count", 1, len(acks), "messagemanager.py", case, key="ack"))
+        if con and any(d.data[2:4] != midb for d in acks):
+            res.violate(Violation("ack-names-other-message", "the acknowledgement carries the request's message ID %#06x" % mid, [d.data[:4].hex() for d in acks],
+                                  "messagemanager.py:send_message", case, key="ack-mid"))
         if not con and (acks or any((rc.decode(d.data)[0] != rc.NON) for d in w.sent if d.src == SRV)):
             res.violate(Violation("non-request-reply-type", "NON only", [repr(d) for d in w.sent if d.src == SRV], "messagemanager.py", case, key="non"))
         for d in w.sent:
@@ -539,6 +544,8 @@ def run(tier, seed, jobs):
             for method in methods:
                 for con in (True, False):
                     cells.append((oname, slow, method, con, "known"))
+                    if method == 1 and con:
+                        cells.append((oname, slow, method, con, "mid0"))
     for oname in names:
         for slow in (False, True):
             for con in (True, False):
